@@ -27,7 +27,7 @@ var (
 	k1P, _  = new(big.Int).SetString("fffffffffffffffffffffffffffffffffffffffffffffffffffffffefffffc2f", 16)
 	k1N, _  = new(big.Int).SetString("fffffffffffffffffffffffffffffffebaaedce6af48a03bbfd25e8cd0364141", 16)
 	two256  = new(big.Int).Lsh(big.NewInt(1), 256)
-	k1Words = []uint64{0, 1, ^uint64(0)}
+	k1Words = []uint64{0, 1, ^uint64(0), 1 << 63, 1<<63 - 1, 1<<63 + 1, 1 << 32, 1<<32 - 1} // incl. the sign-bit words: branch-free "non-zero" idioms differ exactly at 2^63
 )
 
 type c18Case struct {
@@ -63,6 +63,14 @@ func k1ValLimbs(v *big.Int) [4]uint64 {
 	return l
 }
 
+// c18WordIdx: the three classic extremes half of the time, the sign-bit / 32-bit-boundary words otherwise
+func c18WordIdx(r *vf.Rand) int {
+	if r.Bool() {
+		return r.Intn(3)
+	}
+	return r.Intn(len(k1Words))
+}
+
 func k1ModP(x *big.Int) *big.Int { return new(big.Int).Mod(x, k1P) }
 
 // genK1Value: operand classes of the property statement
@@ -71,11 +79,11 @@ func genK1Value(r *vf.Rand, allowUnreduced bool) [4]uint64 {
 	switch r.Intn(8) {
 	case 0: // every word in {0, 1, 2^64-1}
 		for i := range l {
-			l[i] = k1Words[r.Intn(3)]
+			l[i] = k1Words[c18WordIdx(r)]
 		}
 	case 1: // extreme words with one random word
 		for i := range l {
-			l[i] = k1Words[r.Intn(3)]
+			l[i] = k1Words[c18WordIdx(r)]
 		}
 		l[r.Intn(4)] = r.U64()
 	case 2: // within 2^33 below p
@@ -372,7 +380,7 @@ func genC18Bytes(r *vf.Rand) []byte {
 	case 3: // extreme words
 		var l [4]uint64
 		for i := range l {
-			l[i] = k1Words[r.Intn(3)]
+			l[i] = k1Words[c18WordIdx(r)]
 		}
 		return k1BE(k1LimbsVal(l), 32)
 	case 4: // short inputs (left padded by SetBytes)
